@@ -278,7 +278,7 @@ def _once_on_every_path(r, b, anchor, events):
     return ret_wo
 
 
-def _solver_boxes_elsewhere(prog, t):
+def _solver_boxes_elsewhere(prog, t, min_fns=None):
     """names of the functions of the bin (other than the per-query dispatch functions) that construct solver objects"""
     out = set()
     dfs = {b.id for b in dispatch_functions(prog, t)}
@@ -289,7 +289,7 @@ def _solver_boxes_elsewhere(prog, t):
             c = callee_of(s)
             if c and re.search(r"^solvers::.*::new(_with\w*)?$", strip_generics(callee_name(c) or "")):
                 out.add(b.path.rsplit("::", 1)[-1])
-    return out if len(out) >= 3 else set()
+    return out if len(out) >= (min_fns if min_fns else 3) else set()
 
 
 def rule_answer_after_solver(ctx):
@@ -649,6 +649,9 @@ def rule_dispatch(ctx, kind=None):
             tr = next(iter(traits))
             seen_traits[tr] = b
             if only_trait is not None and tr != only_trait:
+                continue
+            if not any(table.values()) and _solver_boxes_elsewhere(prog, t, 1):
+                r.ok(anchor, "NOT decided: this dispatch function builds no solver itself; the (semantics -> solver) table is data handled by %s" % ", ".join(sorted(_solver_boxes_elsewhere(prog, t, 1))[:3]), b.loc())
                 continue
             oracle = DISPATCH_ORACLE[tr]
             r.check(not wildcard, anchor, "wildcard-arm", "the match on the semantics has no wildcard arm", "a wildcard arm can swallow a semantics", b.loc())
